@@ -1161,7 +1161,16 @@ def eval_frac(d):
                 ev.oracle.append("frac string: %r re-formats to %r" % (s, str(y)))
             if frac_value(y) != frac_value(x):
                 ev.oracle.append("frac string: %s -> %r -> %s changes the value" % (canon(x), s, canon(y)))
+    ca0, cb0 = canon(a), canon(b)
     c, e = call(lambda: a + b)
+    # addition is a function of its operands: it must leave them as they were (a duration that is the left operand
+    # of one sum is used again in the next one) and give the same result when repeated
+    if canon(a) != ca0 or canon(b) != cb0:
+        ev.oracle.append("frac add operands: computing %s + %s changed an operand to %s / %s" % (ca0, cb0, canon(a), canon(b)))
+    elif e is None:
+        c2, e2_ = call(lambda: a + b)
+        if e2_ is not None or canon(c2) != canon(c):
+            ev.oracle.append("frac add repeat: %s + %s gives %s the first time and %s the second" % (ca0, cb0, canon(c), e2_ or canon(c2)))
     ok = model_ok_value(a) and model_ok_value(b)
     va, vb = frac_value(a), frac_value(b)
     exact = va + vb
